@@ -243,8 +243,6 @@ pub proof fn lemma_phases_to_batch(c0: IMap<CoinID, CoinDataHeight>, c1: IMap<Co
     ensures batch_coins(c0, c, txx, rel)
 {
 }
-/// state invariant: the transaction set is keyed by the transactions' own hashes
-pub open spec fn txs_keyed(m: Map<TxHash, Transaction>) -> bool { forall|h: TxHash| m.contains_key(h) ==> spec_txhash(#[trigger] m[h]) == h }
 /// h is the hash of one of txx[0..j)
 pub open spec fn in_batch(txx: Seq<Transaction>, j: int, h: TxHash) -> bool { exists|q: int| 0 <= q < j && h == spec_txhash(#[trigger] txx[q]) }
 pub proof fn lemma_in_batch_next(txx: Seq<Transaction>, j: int, h: TxHash)
